@@ -386,11 +386,11 @@ theorem rawSetList_nb (cfg : Cfg) (f : Forest) (m : Meta) (its : Items) (key : I
     (hn : NB f) (hfind : f.find? m.id = some (.node m its)) :
     ∀ r, rawSetList cfg f m its key ins ve = .ok r → r.1.aliased = false → f.aliased = false → NB r.1 := by
   intro r hr hal _
-  rcases rawSetList_cases cfg f m its key ins ve r hr with rfl | ⟨i, p, old, hold, h⟩ | ⟨i, l, h⟩ | ⟨i, h⟩
+  rcases rawSetList_cases cfg f m its key ins ve r hr with rfl | ⟨i, p, old, hold, h⟩ | ⟨i, l, h⟩ | h
   · exact hn
   · exact listReplace_nb cfg f m its i p old ve hn hfind hold _ h hal
   · exact listInsert_nb cfg f m its i l ve hn hfind _ h hal
-  · exact listAppend_nb cfg f m its i ve hn hfind _ h hal
+  · exact listAppend_nb cfg f m its _ ve hn hfind _ h hal
 
 end Pg.Sym
 
